@@ -42,7 +42,10 @@ def oracle_consistency(R, tier, seed):
     from openaerostruct.transfer.load_transfer import LoadTransfer
     O = R.oracle("fixed-point-of-both-disciplines")
     cases = [("tube", surf_tube(), dict(Mach=0.84, alpha=3.0)), ("tube-weight-relief", surf_tube(struct_weight_relief=True), dict(Mach=0.84, alpha=2.0, load_factor=2.5)),
-             ("wingbox-weight-relief", surf_wingbox(distributed_fuel_weight=False), WB_FLOW)]
+             ("wingbox-weight-relief", surf_wingbox(distributed_fuel_weight=False), WB_FLOW),
+             # a wing-box dictionary that also carries a fem_origin entry (which a wing box ignores): every member of the loop
+             # must use the SAME chordwise reference line (the structural nodes)
+             ("wingbox-with-fem_origin-entry", surf_wingbox(distributed_fuel_weight=False, fem_origin=0.35), WB_FLOW)]
     for name, s, flow in cases:
         p = converged(s, flow)
         pre = "AS_point_0.coupled."
@@ -69,6 +72,16 @@ def oracle_consistency(R, tier, seed):
         q.set_val("def_mesh", defm); q.set_val("sec_forces", secf); _quiet(q.run_model)
         e = rel(q.get_val("loads"), loads)
         if e > 1e-12: bad["loads != transfer(sec_forces)"] = e
+        # (3b) ... and these nodal loads, acting at the structural nodes carried along with the deformed mesh, are statically
+        # equivalent to the sectional forces acting at the quarter-chord points of the deformed mesh
+        chord = mesh[-1] - mesh[0]
+        w = float(np.mean(np.sum((nodes - mesh[0]) * chord, axis=1) / np.sum(chord * chord, axis=1)))
+        nd = (1 - w) * defm[0] + w * defm[-1]
+        fp = 0.5 * (0.75 * defm[:-1, :-1] + 0.25 * defm[1:, :-1]) + 0.5 * (0.75 * defm[:-1, 1:] + 0.25 * defm[1:, 1:])
+        Ftot = secf.sum(axis=(0, 1)); Mtot = np.cross(fp, secf).sum(axis=(0, 1))
+        Fl = loads[:, :3].sum(axis=0); Ml = (np.cross(nd, loads[:, :3]) + loads[:, 3:]).sum(axis=0)
+        if rel(Fl, Ftot) > 1e-10: bad["loads not force-equivalent to sec_forces"] = rel(Fl, Ftot)
+        if rel(Ml, Mtot) > 1e-9: bad["loads not moment-equivalent to sec_forces about the structural nodes"] = rel(Ml, Mtot)
         # (4) displacements = structural response to these loads (stand-alone beam with the same options)
         sb = structs.build_struct(s, loads, load_factor=float(np.ravel(p.get_val("load_factor"))[0]))
         _quiet(sb.final_setup)
